@@ -18,4 +18,4 @@ PY
 cd /verif
 VERIF_REPO=$S ./run.sh "$@" 2>&1 | grep -E "^(VIOLATION|KNOWN|C[0-9]+ |HARNESS|  signature)" | head -${MUT_LINES:-8}
 echo "exit=${PIPESTATUS[0]}"
-rm -rf $S
+rm -rf $S /verif/.work/alt-$(echo "$S" | md5sum | cut -c1-10)
